@@ -28,6 +28,7 @@ def main():
     ap.add_argument('--tier', default='quick')
     ap.add_argument('--no-suite', action='store_true')
     ap.add_argument('--checks')
+    ap.add_argument('--repo', default='/repo', help='tree to patch and test (a scratch worktree keeps /repo untouched)')
     a = ap.parse_args()
     seed = os.path.abspath(a.seed)
     patch = os.path.join(seed, 'patch.diff')
@@ -35,21 +36,22 @@ def main():
     meta_p = os.path.join(seed, 'meta.json')
     meta = json.load(open(meta_p)) if os.path.exists(meta_p) else {}
     meta.setdefault('property', a.pid)
-    rc, out = sh('git -C /repo status --porcelain')
+    R = os.path.abspath(a.repo)
+    rc, out = sh('git -C %s status --porcelain' % R)
     if out.strip():
         print('repo not clean:', out)
         sys.exit(2)
-    env = 'PYTHONPATH=/repo PYTHONHASHSEED=0'
+    env = 'PYTHONPATH=%s PYTHONHASHSEED=0' % R
     rc, out = sh('cd /tmp && %s /venv/bin/python %s' % (env, demo), timeout=600)
     meta['demo_clean'] = 'pass' if rc == 0 else 'FAIL rc=%d' % rc
     print('demo on clean tree:', meta['demo_clean'])
-    rc, out = sh('git -C /repo apply %s' % patch)
+    rc, out = sh('git -C %s apply %s' % (R, patch))
     if rc != 0:
         print('patch does not apply:', out)
         sys.exit(2)
     try:
         if not a.no_suite:
-            rc, out = sh('cd /repo && /venv/bin/python -m pytest -q -p no:cacheprovider --timeout=900 yaql 2>&1 | tail -1')
+            rc, out = sh('cd %s && PYTHONPATH=%s /venv/bin/python -m pytest -q -p no:cacheprovider --timeout=900 yaql 2>&1 | tail -1' % (R, R))
             meta['suite_with_patch'] = out.strip()
             print('suite:', out.strip())
         rc, out = sh('cd /tmp && %s /venv/bin/python %s' % (env, demo), timeout=600)
@@ -57,7 +59,7 @@ def main():
         print('demo with patch:', meta['demo_patched'])
         for pid in (a.checks.split(',') if a.checks else [a.pid]):
             t0 = time.time()
-            rc, out = sh('cd /verif && ./check %s --tier %s' % (pid, a.tier), timeout=7200)
+            rc, out = sh('cd /verif && VERIF_REPO=%s ./check %s --tier %s' % (R, pid, a.tier), timeout=7200)
             viol = [l for l in out.splitlines() if l.startswith('VIOLATION')]
             keys = [l.strip() for l in out.splitlines() if l.strip().startswith('key=')]
             res = {'exit': rc, 'violations': len(viol), 'first': keys[:2], 'wall_s': round(time.time() - t0, 1)}
@@ -66,7 +68,7 @@ def main():
             if rc not in (0, 1):
                 print(out[-1500:])
     finally:
-        sh('git -C /repo checkout -- . && git -C /repo clean -fdq -- yaql')
+        sh('git -C %s checkout -- . && git -C %s clean -fdq -- yaql' % (R, R))
     json.dump(meta, open(meta_p, 'w'), indent=1, sort_keys=True)
 
 
